@@ -23,7 +23,7 @@ RULE = ("(a) enumerated: every unordered pair of calls from the menu {store_obje
         "Non-trivial = the calls conflict (share a pid or a content) and >=1 preemption landed inside a call; "
         "distinct key = (start, program, schedule class, outcome vector)."
         ' Further enumerated families: hand-over (H parked, W blocks, H completes, W parked inside its critical section, a late third call, W continues); two FileHashStore instances on one directory adding to / removing from one shared, never-empty reference list (different pids; conflict-directed enumeration of every schedule with <=2 (quick) / <=3 (thorough) preemptions landing before non-commuting operations); thorough: conflict-directed <=3 preemptions for every conflicting pair x start; executions that saw a wait with a timeout are re-run with the timed waits expiring.'
-        ' Round 9 family references-without-object: start states in which one or two pids were tagged to the cid BEFORE any upload (reference files without data object); every conflicting pair of {delete p, tag q, store q, store p, tag p, delete q, store without pid} under every single preemption (quick) / conflict-directed <=3 (thorough). Family sequenced: one caller issues two calls in a row (store then delete, delete then store / tag again) while another caller's call on the same shared list overlaps them; the sequential specification keeps each caller's program order; conflict-directed <=2 / <=3 preemptions.')
+        ' Round 9 family references-without-object: start states in which one or two pids were tagged to the cid BEFORE any upload (reference files without data object); every conflicting pair of {delete p, tag q, store q, store p, tag p, delete q, store without pid} under every single preemption (quick) / conflict-directed <=3 (thorough). Family sequenced: one caller issues two calls in a row (store then delete, delete then store / tag again) while the call of another caller on the same shared list overlaps them; the sequential specification keeps the program order of each caller; conflict-directed <=2 / <=3 preemptions.')
 EXHAUSTIVE_NOTE = ("part (a) enumerates all 55 pairs x 6 starts x all single-preemption schedules (quick) / all "
                    "schedules with <=2 preemptions for conflicting pairs (thorough)")
 ASSUMPTIONS = ["interleaving granularity = file-system operations and lock operations of the store (each step "
